@@ -36,6 +36,7 @@ OWNERS = {
     'Sink': ('C16',),
     'TcpCC': ('C17',),
     'Route': ('C18',),
+    'Timer19': ('C19',),
     'Rt20': ('C20',),
 }
 USERS = {'TcpCC': ('C16',)}               # runs it inside the closed-loop model, does not own the window rules
